@@ -6,12 +6,16 @@ Abstract score (JSON):
                                            | ['transpose', chromatic]          (mode 0 absent 1 major 2 minor 3 dorian)
        | ['note', rest, chord, step, alter, octave, dur, voice, type, dots, tup_actual, tup_normal]
        | ['backup', d] | ['forward', d] | ['tempo', 'decimal text']
+       | ['harmony', root, kind, [deg, ...], bass, offset]     root, bass = None | [step, alter | None]
+                      kind = index into CHORD_KIND_ABBREVIATIONS (dict order), -1 absent, -2 unknown text
+                      deg = [value, alter | None, type]  (type 0 add, 1 subtract, 2 alter, 3 invalid text)   offset = None | int
 The harness serialises it to partwise MusicXML (plain .xml and the same bytes inside a .mxl zip), runs the real
 musicxml_reader.musicxml_file_to_sequence_proto on both, and compares with the Gallina model (exact rationals).
 """
 import ast
 import fractions
 import inspect
+import itertools
 import io
 import os
 import shutil
@@ -34,7 +38,7 @@ TOL = 1e-9
 RULE = ('seeded generator of abstract partwise scores per the quantifier (1-3 parts, 1-6 measures, divisions in '
         '{1..16,24,96,480,960} with an integral beat, meters n/2 n/4 n/8, fifths -7..7 x mode, tempo changes, transposing '
         'parts, second voice via backup, chords, rests, dots, tuplets, pickup / overfull / forward-only measures, every '
-        'spelling step x alter -2..2 x octave), serialised to .xml and .mxl and parsed by the real reader; plus a small '
+        'spelling step x alter -2..2 x octave, <harmony> from the regenerated kind table), serialised to .xml and .mxl and parsed by the real reader; plus a small '
         'malformed stream for the error classes. non-trivial = parsed without error with at least two sounding notes; '
         'distinct by canonical abstract score')
 ASSUMPTIONS = ['XML / zip parsing (xml.etree, zipfile) is exercised, not modelled; the serialiser emits note children in schema order',
@@ -72,6 +76,9 @@ def gen_coq():
     s += G.defz('DEFAULT_MIDI_CHANNEL', musicxml_parser.DEFAULT_MIDI_CHANNEL)
     s += G.defz('DEFAULT_MIDI_PROGRAM', musicxml_parser.DEFAULT_MIDI_PROGRAM)
     s += G.defzlist('MUSIC_PROTO_KEYS', keys)
+    kinds = musicxml_parser.ChordSymbol.CHORD_KIND_ABBREVIATIONS
+    s += 'Definition CHORD_KINDS : list (list Z * list Z) :=\n  [%s].\n' % ';\n   '.join(
+        '(%s, %s)' % (G.string(k), G.string(v)) for k, v in kinds.items())
     s += 'Definition NOTE_TYPE_RATIOS : list (Z * Z) :=\n  [%s].\n' % '; '.join(
         '(%s, %s)' % (G.z(trm[n].numerator), G.z(trm[n].denominator)) for n in TYPE_NAMES)
     return s
@@ -119,9 +126,31 @@ def _elem_xml(e):
         return s + '</note>'
     if k in ('backup', 'forward'):
         return '<%s><duration>%d</duration></%s>' % (k, e[1], k)
+    if k == 'harmony':
+        _, root, kind, degs, bass, offset = e
+        s = '<harmony>'
+        if root is not None:
+            s += '<root><root-step>%s</root-step>%s</root>' % (
+                STEPS[root[0]] if 0 <= root[0] < 7 else 'H', '' if root[1] is None else '<root-alter>%d</root-alter>' % root[1])
+        if kind != -1:
+            s += '<kind>%s</kind>' % (_kind_names()[kind] if kind >= 0 else 'no-such-kind')
+        if bass is not None:
+            s += '<bass><bass-step>%s</bass-step>%s</bass>' % (
+                STEPS[bass[0]] if 0 <= bass[0] < 7 else 'H', '' if bass[1] is None else '<bass-alter>%d</bass-alter>' % bass[1])
+        for v, a, ty in degs:
+            s += '<degree><degree-value>%d</degree-value>%s<degree-type>%s</degree-type></degree>' % (
+                v, '' if a is None else '<degree-alter>%d</degree-alter>' % a, ['add', 'subtract', 'alter', 'bogus'][ty])
+        if offset is not None:
+            s += '<offset>%d</offset>' % offset
+        return s + '</harmony>'
     if k == 'tempo':
         return '<direction placement="above"><direction-type><words>t</words></direction-type><sound tempo="%s"/></direction>' % e[1]
     raise ValueError(e)
+
+
+def _kind_names():
+    from note_seq import musicxml_parser
+    return list(musicxml_parser.ChordSymbol.CHORD_KIND_ABBREVIATIONS)
 
 
 def to_xml(score):
@@ -166,7 +195,9 @@ def _canon_proto(ns):
     notes = sorted([[int(n.part), int(n.voice), int(n.instrument), int(n.program), int(n.pitch),
                      float(n.start_time), float(n.end_time), int(n.numerator), int(n.denominator)] for n in ns.notes],
                    key=lambda x: (x[0], x[1], x[4], round(x[5], 6), round(x[6], 6)))
-    return ['OK', tsigs, ksigs, tempos, notes, float(ns.total_time)]
+    chords = sorted([[float(t.time), str(t.text), int(t.annotation_type)] for t in ns.text_annotations],
+                    key=lambda x: (round(x[0], 6), x[1]))
+    return ['OK', tsigs, ksigs, tempos, notes, float(ns.total_time), chords]
 
 
 def _read(path):
@@ -222,6 +253,12 @@ def _flat(m):
         elif k == 'tempo':
             q = F(e[1])
             out.append([12, q.numerator, q.denominator])
+        elif k == 'harmony':
+            _, root, kind, degs, bass, offset = e
+            po = lambda p: [] if p is None else ([p[0]] if p[1] is None else [p[0], p[1]])
+            out.append([13, po(root), kind if kind >= -1 else 10 ** 6,
+                        [[v, ty] if a is None else [v, ty, a] for v, a, ty in degs], po(bass),
+                        [] if offset is None else [offset]])
     return out
 
 
@@ -244,13 +281,16 @@ def _q(p):
 def model_output(case, out):
     if out and out[0] == -1000:
         return ['EXC', _ERR.get(out[1], 'model-error-%d' % out[1])]
-    _, ts, ks, tm, ns, total = out
+    _, ts, ks, tm, ns, total, ch = out
     tsigs = sorted([[_q(t), n, d] for t, n, d in ts], key=lambda x: (round(x[0], 6), x[1], x[2]))
     ksigs = sorted([[_q(t), k, m] for t, k, m in ks], key=lambda x: (round(x[0], 6), x[1], x[2]))
     tempos = [[_q(t), _q(q)] for t, q in tm]
     notes = sorted([[p, v, i, g, pi, _q(s), _q(e), n, d] for p, v, i, g, pi, s, e, n, d in ns],
                    key=lambda x: (x[0], x[1], x[4], round(x[5], 6), round(x[6], 6)))
-    return ['OK', tsigs, ksigs, tempos, notes, _q(total)]
+    from note_seq import musicxml_reader
+    chords = sorted([[_q(t), ''.join(chr(c) for c in f), int(musicxml_reader.CHORD_SYMBOL)] for t, f in ch],
+                    key=lambda x: (round(x[0], 6), x[1]))
+    return ['OK', tsigs, ksigs, tempos, notes, _q(total), chords]
 
 
 def _close(a, b):
@@ -365,8 +405,8 @@ def _expected_part(score, k, q0):
             delta.append(-secs(i, t[1]))
         else:
             delta.append(F(0))
-    onset = [sum(delta[:i], F(0)) for i in range(len(toks))]
-    notes, tempos, keys, times = [], [], [], []
+    onset = [F(0)] + list(itertools.accumulate(delta))      # onset[i] = sum(delta[:i])
+    notes, tempos, keys, times, chords = [], [], [], [], []
     transpose = 0
     head = None                       # (onset, dur) of the chord's first member
     per_measure_key = {}
@@ -375,12 +415,18 @@ def _expected_part(score, k, q0):
             transpose = t[1]
             if mi in per_measure_key:
                 per_measure_key[mi][3] += t[1]
+                # spelling of the sounding key (only used to tell enharmonic duplicates apart when de-duplicating)
+                e = per_measure_key[mi][4] + (-5 * t[1]) % 12
+                per_measure_key[mi][4] = e - 12 if e > 6 else e
         elif t[0] == 'key':
-            per_measure_key[mi] = [onset[i], t[1], 1 if t[2] == 2 else 0, 0]
+            per_measure_key[mi] = [onset[i], t[1], 1 if t[2] == 2 else 0, 0, t[1]]
         elif t[0] == 'time':
             times.append([onset[i], t[1], t[2]])
         elif t[0] == 'tempo':
             tempos.append([onset[i], F(t[1]) if F(t[1]) != 0 else F(120)])
+        elif t[0] == 'harmony':
+            _, root, kind, degs, bass, offset = t
+            chords.append([onset[i] + (secs(i, offset) if offset is not None else 0), _figure(root, kind, degs, bass)])
         elif t[0] == 'note':
             _, rest, chord, step, alter, octave, dur, voice = t[:8]
             if chord and head is not None:
@@ -394,9 +440,31 @@ def _expected_part(score, k, q0):
                 notes.append({'part': k, 'voice': voice, 'pitch': pitch, 'start': st, 'end': st + secs(i, du),
                               'spelling': [step, alter, octave, transpose]})
     for mi in sorted(per_measure_key):
-        on, f, mode, chrom = per_measure_key[mi]
-        keys.append([on, (7 * f + chrom) % 12, mode, f, chrom])
-    return {'notes': notes, 'tempos': tempos, 'keys': keys, 'times': times, 'end': sum(delta, F(0))}
+        on, f, mode, chrom, spelled = per_measure_key[mi]
+        keys.append([on, (7 * f + chrom) % 12, mode, f, chrom, spelled])
+    return {'notes': notes, 'tempos': tempos, 'keys': keys, 'times': times, 'chords': chords, 'end': sum(delta, F(0))}
+
+
+_ALT = {None: '', -2: 'bb', -1: 'b', 0: '', 1: '#', 2: '##'}
+
+
+def _figure(root, kind, degs, bass):
+    """Lead-sheet figure of a <harmony>: root ++ kind abbreviation ++ '(degree)'* ++ '/bass' (N.C. for kind none)."""
+    from note_seq import musicxml_parser
+    k = '' if kind == -1 else list(musicxml_parser.ChordSymbol.CHORD_KIND_ABBREVIATIONS.values())[kind]
+    if k == 'N.C.':
+        return k
+    fig = STEPS[root[0]] + _ALT[root[1]] + k
+    for v, a, ty in degs:
+        if ty == 0:
+            fig += '(%s%s%d)' % ('' if _ALT[a] else 'add', _ALT[a], v)
+        elif ty == 1:
+            fig += '(no%d)' % v
+        else:
+            fig += '(%s%d)' % (_ALT[a], v)
+    if bass is not None:
+        fig += '/' + STEPS[bass[0]] + _ALT[bass[1]]
+    return fig
 
 
 def _measures_complete(score):
@@ -470,7 +538,7 @@ def oracle(case, io):
         return {'kind': 'mxl-differs-from-xml'}
     if io[0] != 'OK':
         return {'kind': 'well-formed-score-rejected', 'exception': io[1] if len(io) > 1 else '?'}
-    _, tsigs, ksigs, tempos, notes, total = io
+    _, tsigs, ksigs, tempos, notes, total, chords = io
     parts = score['parts']
     q_first = _initial_tempo(parts[0]) if parts else F(120)
     exp = [_expected_part(score, k, F(120) if k == 0 else q_first) for k in range(len(parts))]
@@ -486,18 +554,20 @@ def oracle(case, io):
         for n in notes:
             if n[0] == k and (n[2] != c or n[3] != g):
                 return {'kind': 'channel-or-program-wrong', 'part': k, 'expected': [c, g], 'got': n[2:4]}
-    key = lambda n: (n['part'], n['voice'], n['pitch'])
-    got_bag = sorted((n[0], n[1], n[4]) for n in notes)
-    exp_bag = sorted(key(n) for n in exp_notes)
-    if got_bag != exp_bag:
+    got_pp = sorted((n[0], n[4]) for n in notes)
+    exp_pp = sorted((n['part'], n['pitch']) for n in exp_notes)
+    if got_pp != exp_pp:
         # name the spelling that went wrong
-        for e in sorted(exp_notes, key=key):
-            if key(e) not in got_bag:
+        for e in sorted(exp_notes, key=lambda n: (n['part'], n['pitch'])):
+            if (e['part'], e['pitch']) not in got_pp:
                 st, al, oc, tr = e['spelling']
-                got_p = sorted(set(g[2] for g in got_bag) - set(x[2] for x in exp_bag))
+                extra = sorted(set(g[1] for g in got_pp if g[0] == e['part']) - set(x[1] for x in exp_pp if x[0] == e['part']))
                 return {'kind': 'pitch-wrong', 'step': STEPS[st], 'alter': al, 'octave': oc, 'transpose': tr,
-                        'expected': e['pitch'], 'got_unexpected_pitches': got_p[:4], 'part': e['part'], 'voice': e['voice']}
+                        'expected': e['pitch'], 'got_unexpected_pitches': extra[:4], 'part': e['part']}
         return {'kind': 'pitch-wrong'}
+    if sorted((n[0], n[1], n[4]) for n in notes) != sorted((n['part'], n['voice'], n['pitch']) for n in exp_notes):
+        return {'kind': 'voice-wrong', 'expected': sorted(set(n['voice'] for n in exp_notes)),
+                'got': sorted(set(n[1] for n in notes))}
     # --- onsets and durations at the tempo in force
     leak = None
     bad = _note_mismatch(exp_notes, notes)
@@ -526,10 +596,14 @@ def oracle(case, io):
                 return {'kind': 'tempo-marks-wrong', 'expected': [[0.0, 120.0]], 'got': tempos}
     # --- key signatures: tonic from <fifths> (sounding key when <transpose> follows in the measure), mode from <mode>
     # (times taken under the parser-state reading so that a tempo leak is reported once, as such)
-    exp_k = _dedup([[x[0], x[1], x[2]] for s in state for x in s['keys']]) or [[F(0), 0, 0]]
-    if not _same_times(exp_k, _merge_noise(ksigs)):
+    exp_k = [x[:3] for x in _dedup([[x[0], x[1], x[2], x[5]] for s in state for x in s['keys']])] or [[F(0), 0, 0]]
+    if not case.get('exact'):
+        exp_k, ksigs_c = _merge_noise([[float(a), b, c] for a, b, c in exp_k]), _merge_noise(ksigs)
+    else:
+        ksigs_c = ksigs
+    if not _same_times(exp_k, ksigs_c):
         for s in state:
-            for on, pc, mode, f, chrom in s['keys']:
+            for on, pc, mode, f, chrom, _sp in s['keys']:
                 if not any(_close(float(on), g[0]) and g[1] == pc and g[2] == mode for g in ksigs):
                     near = [g for g in ksigs if _close(float(on), g[0])]
                     if near and all(g[1] == pc for g in near) and mode == 1:
@@ -542,13 +616,27 @@ def oracle(case, io):
     # --- declared time signatures at their measure starts, for complete measures
     if _measures_complete(score):
         exp_s = _dedup([[x[0], x[1], x[2]] for s in state for x in s['times']])
-        if not _same_times(exp_s, _merge_noise(tsigs)):
+        tsigs_c = tsigs
+        if not case.get('exact'):
+            exp_s, tsigs_c = _merge_noise([[float(a), b, c] for a, b, c in exp_s]), _merge_noise(tsigs)
+        if not _same_times(exp_s, tsigs_c):
             return {'kind': 'time-signature-wrong', 'expected': [[float(a), b, c] for a, b, c in exp_s], 'got': tsigs}
+    # --- chord symbols (root, kind, degrees, bass) at the times they occur
+    from note_seq import musicxml_reader
+    exp_c = [[t, f, int(musicxml_reader.CHORD_SYMBOL)] for s_ in state for t, f in s_['chords']]
+    got_c = list(chords)
+    for t, f, ty in exp_c:
+        hit = next((g for g in got_c if g[1] == f and g[2] == ty and _close(float(t), g[0])), None)
+        if hit is None:
+            return {'kind': 'chord-symbol-wrong', 'expected': [float(t), f], 'got': chords[:6]}
+        got_c.remove(hit)
+    if got_c:
+        return {'kind': 'chord-symbol-wrong', 'unexpected': got_c[:6]}
     return leak
 
 
 def nontrivial(case, io):
-    return case.get('op') != 'malformed' and io[0] == 'OK' and len(io[4]) >= 2
+    return case.get('op') != 'malformed' and io[0] == 'OK' and (len(io[4]) >= 2 or case.get('op', '').startswith('sweep'))
 
 
 # ------------------------------------------------------------------ generator
@@ -600,10 +688,26 @@ def _pitch(rng):
     return (rng.randint(0, 6), rng.choice([0, 0, 0, 1, -1, 2, -2]), rng.randint(0, 9))
 
 
-def _voice(total, div, voice, rng, p_rest=0.15, p_chord=0.25, forwards=False):
+def _harmony(rng, div):
+    nk = len(_kind_names())
+    alt = lambda: rng.choice([None, None, 0, 1, -1, 2, -2])
+    kind = rng.choice([-1] + list(range(nk)) * 2)
+    degs = []
+    for _ in range(rng.choice([0, 0, 0, 1, 1, 2])):
+        ty = rng.choice([0, 0, 1, 2])
+        a = rng.choice([1, -1, 2, -2]) if ty == 2 else alt()
+        degs.append([rng.choice([2, 4, 5, 6, 7, 9, 11, 13]), a, ty])
+    bass = [rng.randint(0, 6), alt()] if rng.random() < 0.3 else None
+    offset = rng.choice([1, div, 2 * div, -1]) if rng.random() < 0.2 else None
+    return ['harmony', [rng.randint(0, 6), alt()], kind, degs, bass, offset]
+
+
+def _voice(total, div, voice, rng, p_rest=0.15, p_chord=0.25, forwards=False, p_harmony=0.0):
     els = []
     for d in _split(total, div, rng):
         ty, dots, ta, tn = _shape(d, div, rng)
+        if rng.random() < p_harmony:
+            els.append(_harmony(rng, div))
         if forwards and rng.random() < 0.2:
             els.append(['forward', d]); continue
         if rng.random() < p_rest:
@@ -658,6 +762,7 @@ def gen_score(rng, nparts=None, dyadic=False):
         cands = [dv for dv in divs_pool if ok_div(dv)]
         div = div0 if ok_div(div0) and rng.random() < 0.6 else rng.choice(cands)
         transposing = rng.random() < 0.3
+        lead_sheet = (not transposing) and rng.random() < 0.35
         chrom = rng.choice([-2, -9, -3, 2, -12, 3, -14, 5, -7, 1]) if transposing else 0
         midi = [rng.randint(1, 16), rng.randint(1, 128)] if rng.random() < 0.7 else None
         measures = []
@@ -705,7 +810,7 @@ def gen_score(rng, nparts=None, dyadic=False):
                 n = max(1, full + rng.choice([-1, 1]) * rng.randint(1, max(1, full // 2)))
                 els += _voice(n, div, 1, rng)
             else:
-                v1 = _voice(full, div, 1, rng)
+                v1 = _voice(full, div, 1, rng, p_harmony=(0.25 if lead_sheet else 0.0))
                 if scheme == 'free' and nparts == 1 and len(v1) > 2 and rng.random() < 0.25:
                     v1.insert(rng.randint(1, len(v1) - 1), ['tempo', rng.choice(tpool)])
                     # a mark between a chord's members would separate them from their head: move it before the head
@@ -724,7 +829,18 @@ def gen_score(rng, nparts=None, dyadic=False):
 def _malformed(rng):
     base = gen_score(rng, nparts=1)
     m = base['parts'][0]['measures'][0]
-    kind = rng.choice(['two-times', 'bad-step', 'bad-type', 'chord-first'])
+    kind = rng.choice(['two-times', 'bad-step', 'bad-type', 'chord-first', 'harmony', 'harmony'])
+    if kind == 'harmony':
+        bad = rng.choice([
+            ['harmony', [0, None], -2, [], None, None],                   # unknown kind
+            ['harmony', [0, 3], 0, [], None, None],                       # alter out of range
+            ['harmony', [0, None], 0, [[5, None, 2]], None, None],        # alteration by zero semitones
+            ['harmony', [0, None], 0, [[5, 1, 3]], None, None],           # invalid degree type
+            ['harmony', None, 0, [], None, None],                         # no root
+            ['harmony', [0, None], 0, [], [1, -3], None],                 # bass alter out of range
+        ])
+        m.append(bad)
+        return {'op': 'malformed', 'input': base, 'expect': 'MusicXMLConversionError'}
     if kind == 'two-times':
         m.append(['attr', [['time', 3, 4]]])
         return {'op': 'malformed', 'input': base, 'expect': 'MusicXMLConversionError'}
@@ -738,9 +854,37 @@ def _malformed(rng):
     return {'op': 'malformed', 'input': sc, 'expect': None}
 
 
-def cases(rng, tier, n=None):
-    total = n if n is not None else (360 if tier != 'thorough' else 20000)
+_STATS = {}
+
+
+def _sweeps(tier):
+    """Exhaustive small scopes: every spelling, every (fifths, mode, chromatic residue)."""
+    A = lambda *items: ['attr', [list(i) for i in items]]
     out = []
+    transposes = [0, -2] if tier != 'thorough' else [0, -2, -9, 3, 12, -14]
+    for tr in transposes:
+        for alter in (-2, -1, 0, 1, 2):
+            notes = [_n(st, alter, oc, 1) for oc in range(10) for st in range(7)]
+            items = [['div', 1], ['time', 70, 4]] + ([['transpose', tr]] if tr else [])
+            out.append({'op': 'sweep-pitch', 'exact': True,
+                        'input': {'parts': [{'midi': None, 'measures': [[A(*items)] + notes]}]}})
+    chroms = range(-11, 1) if tier != 'thorough' else range(-14, 15)
+    modes = (1, 2) if tier != 'thorough' else (0, 1, 2, 3)
+    for f in range(-7, 8):
+        for mode in modes:
+            for c in chroms:
+                if tier != 'thorough' and mode == 2 and c % 3:
+                    continue
+                out.append({'op': 'sweep-key', 'exact': True, 'input': {'parts': [{'midi': None, 'measures': [
+                    [A(['div', 1], ['key', f, mode], ['time', 1, 4], ['transpose', c]), _n(0, 0, 4, 1)]]}]}})
+            out.append({'op': 'sweep-key', 'exact': True, 'input': {'parts': [{'midi': None, 'measures': [
+                [A(['div', 1], ['key', f, mode], ['time', 1, 4]), _n(0, 0, 4, 1)]]}]}})
+    return out
+
+
+def cases(rng, tier, n=None):
+    total = n if n is not None else (1500 if tier != 'thorough' else 20000)
+    out = _sweeps(tier) if n is None else []
     for i in range(total):
         r = rng.random()
         if r < 0.05:
@@ -749,7 +893,27 @@ def cases(rng, tier, n=None):
             out.append({'op': 'score-dyadic', 'input': gen_score(rng, dyadic=True), 'exact': True})
         else:
             out.append({'op': 'score', 'input': gen_score(rng)})
+    import collections
+    c = collections.Counter()
+    for case in out:
+        ps = case['input']['parts']
+        c['parts=%d' % len(ps)] += 1
+        c['leak_free' if leak_free(case['input']) else 'outside_leak_free'] += 1
+        for p in ps:
+            for _, t in _tokens_of_part(p):
+                c['tok:' + t[0]] += 1
+                if t[0] == 'note':
+                    c['note:chord'] += bool(t[2]); c['note:rest'] += bool(t[1]); c['note:voice2'] += t[7] == 2
+                    c['note:tuplet'] += bool(t[10]); c['note:dotted'] += bool(t[9])
+                    c['note:octave-crossing-spelling'] += (t[3], t[4]) in ((0, -1), (0, -2), (6, 1), (6, 2))
+                elif t[0] == 'key':
+                    c['key:minor'] += t[2] == 2
+    _STATS['input_distribution'] = dict(sorted(c.items()))
     return out
+
+
+def extra_evidence():
+    return dict(_STATS)
 
 
 def corpus():
@@ -781,6 +945,16 @@ def corpus():
          _n(0, 0, 4, 9, 1, 5, 1), _n(2, 0, 4, 9, 1, 5, 1, chord=True), _n(4, 0, 4, 3, 1, 6),
          _n(0, 0, 5, 4, 1, 5, 0, 3, 2), _n(1, 0, 5, 4, 1, 5, 0, 3, 2), _n(2, 0, 5, 4, 1, 5, 0, 3, 2),
          ['backup', 24], ['forward', 12], _n(0, 0, 3, 12, 2, 4)], midi=[2, 41])})
+    # chord symbols: every documented degree rule, bass, offset, N.C., kind absent
+    kn = _kind_names()
+    out.append({'op': 'score', 'input': one(
+        [A(['div', 2], ['time', 4, 4]),
+         ['harmony', [0, 1], kn.index('minor-seventh'), [[9, None, 0], [5, -1, 2], [3, None, 1], [11, 1, 0]], [4, -1], None],
+         _n(0, 0, 4, 4, 1, 4),
+         ['harmony', None, kn.index('none'), [], None, None], _n(0, 0, 4, 2),
+         ['harmony', [6, -2], -1, [], None, 1], _n(0, 0, 4, 2)])})
+    out.append({'op': 'malformed', 'expect': 'MusicXMLConversionError', 'input': one(
+        [A(['div', 1], ['time', 1, 4], ['transpose', -2]), ['harmony', [0, None], 0, [], None, None], _n(0, 0, 4, 1)])})
     # forward-only measure, pickup measure, no time signature at all, empty score
     out.append({'op': 'score', 'input': {'parts': [{'midi': None, 'measures': [
         [A(['div', 2], ['time', 3, 4]), _n(0, 0, 4, 6, 1, 4, 1)], [['forward', 6]], [_n(0, 0, 4, 2)], [_n(0, 0, 4, 6, 1, 4, 1)]]}]}})
@@ -837,5 +1011,6 @@ META = {
     'level_note': ('Trusted: Coq kernel; hand-written model Model/MusicXml.v (tied by correspondence only); the XML serialiser; '
                    'xml.etree / zipfile exercised, not modelled; times exact rationals vs binary64 at 1e-9. Tempo state leaking '
                    'across parts (F21) is kept in the model; the cursor/tempo theorems for multi-part scores carry the '
-                   'explicit hypothesis leak_free and have a refuted witness without it. Chord symbols (<harmony>) not modelled.'),
+                   'explicit hypothesis leak_free and have a refuted witness without it. The chord-symbol figure is a model function '
+                   '(harmony_figure) tied by correspondence, its time (cursor + offset) is a theorem.'),
 }
